@@ -157,10 +157,19 @@ Record case := {
   c_outs : list (option (list N));          (* per Flush: the AddOrReplaceIPSet call it made (members sorted), if any *)
   c_nft : bool;                             (* renderer constructed for nftables *)
   c_offload : bool;                         (* Config.NFTablesFlowTableOffload *)
-  c_rules : list located                    (* every rendered static rule carrying a flow-offload statement, parsed *)
+  c_rules : list located;                   (* every rendered static rule carrying a flow-offload statement, parsed *)
+  c_limits : list (option qos * bool)       (* per workload update: its QoSControls, and whether the REAL renderer put a
+                                               packet-rate or connection-limit rule into the endpoint's filter chains *)
 }.
+
+(* the property's words "a connection or packet rate limit" denote exactly the controls for which Felix renders a limit
+   rule into the endpoint's filter chains (the rules an offloaded flow would skip) *)
+Definition ok_limits (l : list (option qos * bool)) : bool :=
+  forallb (fun qb => Bool.eqb (match fst qb with
+                               | Some q => has_connection_limit q || has_packet_rate_limit q
+                               | None => false end) (snd qb)) l.
 
 Definition check_case (c : case) : bool * bool :=
   (outs_eqb (run (c_ver c) init (c_ops c)) (c_outs c)
    && list_eqb located_eqb (static_offload_rules (c_nft c) (c_offload c)) (c_rules c),
-   ok_trace (c_ver c) (c_ops c) (c_outs c) && ok_rules (c_ver c) (c_rules c)).
+   ok_trace (c_ver c) (c_ops c) (c_outs c) && ok_rules (c_ver c) (c_rules c) && ok_limits (c_limits c)).
